@@ -231,6 +231,7 @@ pub fn c05_parabolic_sar() {
 	let mut k: usize = 1; // number of AF steps
 	let mut prev = c0;
 	let mut prev_trend_value = 0.0;
+	let mut prev_trend_ref: ValueType = 0.0;
 	for i in 0..t {
 		let c = valid_candle_i(i);
 		let r = ind.next(&c);
@@ -269,6 +270,11 @@ pub fn c05_parabolic_sar() {
 			let sig: i8 = if tv != prev_trend_value { (tv > 0.0) as i8 - (tv < 0.0) as i8 } else { 0 };
 			rsx::check("psar.nsignals", r.signals().len() == 1);
 			rsx::check("psar.signal.trend_flip", r.signal(0) == r_action(sig));
+			// ... and on the trend of the definition (Wilder's state machine above): the flip is signalled on
+			// the bar that penetrates the SAR, not later
+			let sig_ref: i8 = if trend != prev_trend_ref { (trend > 0.0) as i8 - (trend < 0.0) as i8 } else { 0 };
+			rsx::check("psar.signal.flip_on_penetration", r.signal(0) == r_action(sig_ref));
+			prev_trend_ref = trend;
 			prev_trend_value = tv;
 		}
 		if what == "ranges" {
